@@ -125,6 +125,20 @@ func (w *XMLWriter) writeEsc(s string, attr bool) {
 	}
 }
 
+// IsName returns true if the given string can safely be used as the name of an
+// attribute. Which non ASCII characters are allowed in a name depends on the edition
+// of the XML specification a parser implements, so only ASCII names are accepted.
+func IsName(s string) bool {
+	for i, r := range s {
+		isLetter := (r >= 'a' && r <= 'z') || (r >= 'A' && r <= 'Z') || r == '_'
+		isOther := (r >= '0' && r <= '9') || r == '-' || r == '.'
+		if !(isLetter || (i > 0 && isOther)) {
+			return false
+		}
+	}
+	return s != ""
+}
+
 func (w *XMLWriter) checkIndent() {
 	if !w.inLine {
 		if w.prettyPrint {
